@@ -18,7 +18,7 @@ from mc import common
 LEVEL = "fault_enumeration"
 
 SRC_KINDS = ["cub", "tet", "pol", "cus", "col", "mesh", "circ"]
-OBS_KINDS = ["arr", "one", "list", "sens1", "sensP", "sens2diff", "sensInColl", "sensMixed"]
+OBS_KINDS = ["arr", "one", "list", "sens3", "sens1", "sensP", "sens2diff", "sensInColl", "sensMixed"]
 FIELDS = ["B", "H", "J", "M"]
 
 TET_LEFT = np.array([(0, 0, 0), (1, 0, 0), (0, 0, 1), (0, 1, 0)], float)  # left-handed: reordered in place by the core
@@ -114,6 +114,9 @@ def mk_observers(kind, plen):
     if kind == "list":
         l = [[1.0, 2, 3], [-1, 0.5, 2]]
         return l, [], [l]
+    if kind == "sens3":   # one bare pixel position of shape (3,)
+        s = magpy.Sensor(pixel=(0.1, 0.2, 0.3), position=(2, 2, 2))
+        return s, [s], []
     if kind == "sens1":
         pix = np.array([(0.0, 0, 0), (0.1, 0, 0)])
         s = magpy.Sensor(pixel=pix, position=(2, 2, 2))
@@ -532,10 +535,10 @@ def enumerate_cases(tier):
                             entries = ["top"]
                             if len(srcs) == 1 and fault in ("none", "output_df", "ff_raise", "agg_argmax", "output_bad"):
                                 entries.append("src")
-                            if obs in ("sens1", "sensP") and fault in ("none", "ff_raise", "ff_retnone", "output_bad", "agg_argmax"):
+                            if obs in ("sens1", "sens3", "sensP") and fault in ("none", "ff_raise", "ff_retnone", "output_bad", "agg_argmax"):
                                 entries.append("sens")
-                            if obs in ("arr", "one", "sens1") and fault in ("none", "ff_shape", "output_df") and "col" not in [k for k, _ in srcs]:
-                                entries.append("coll")
+                            if obs in ("arr", "one", "sens1") and fault in ("none", "ff_shape", "output_df"):
+                                entries.append("coll")     # also with a nested collection among the sources
                             for entry in entries:
                                 c = {"srcs": srcs, "obs": obs, "obs_plen": obs_plen, "fault": fault,
                                      "entry": entry, "field": field}
